@@ -15,7 +15,16 @@ ORACLE_TIMEOUT_S = 30
 
 
 def entry_class(entry):
-    return "noop" if entry in ("parse", "noop") else entry
+    # "sim@<sel>": the entry point with the ParseSettings knobs of the working tree turned by selector <sel>
+    base, _, sel = entry.partition("@")
+    cls = "noop" if base in ("parse", "noop") else base
+    return cls + ("@" + sel if sel and base != "parse" else "")
+
+
+def noop_class(entry):
+    """The tracer-free class of an entry, with the same settings selector."""
+    base, _, sel = entry.partition("@")
+    return "noop" + ("@" + sel if sel and base != "parse" else "")
 
 
 PAD_MARK = "\x00\x00PAD="
@@ -56,6 +65,11 @@ class ParseSim:
         if p.returncode != 0:
             raise HarnessError("sim-worker list failed: " + p.stderr.decode(errors="replace"))
         self.variants = json.loads(p.stdout)
+        p = subprocess.run([self.worker, "knobs"], capture_output=True)
+        if p.returncode != 0:
+            raise HarnessError("sim-worker knobs failed: " + p.stderr.decode(errors="replace"))
+        # knobs of ParseSettings found in the working tree (none on a tree whose ParseSettings is empty)
+        self.knobs = json.loads(p.stdout)
         self.by_name = {v["name"]: v for v in self.variants}
         corpus = json.load(open(os.path.join(VERIF, "corpus", "corpus.json")))
         self.grammars = {g["name"]: g for g in corpus["grammars"]}
@@ -195,7 +209,8 @@ class ParseSim:
         pools that wrap or fill up only after hundreds or 2^16 uses)."""
         # a long-lived thread: several hundred parses of one variant on one thread (counters, generation stamps and
         # pools that wrap or fill up only after hundreds of uses), most of them short, a long one now and then
-        g = rng.choice(sorted(n for n in gnames if not self.grammars[n]["ctx"] and not self.grammars[n].get("max_run")
+        # (the re-entrancy pairs start a helper thread per parse: tens of thousands of them do not fit a simulation's time budget)
+        g = rng.choice(sorted(n for n in gnames if not self.grammars[n]["ctx"] and not self.grammars[n].get("max_run") and not n.startswith("reent_")
                               and (not memo_only or any(v["mask"] for v in self.by_grammar[n]))))
         full = max(self.by_grammar[g], key=lambda v: v["mask"])
         v = full if rng.coin(700) else rng.choice(self.by_grammar[g])
@@ -225,11 +240,21 @@ class ParseSim:
                 q.append((rng.choice(filler), 65536 - 4))
                 for j in range(min(6, len(longs) - 1)):
                     q.append(longs[j])
-        q = [dict({"variant": v["name"], "rule": v["exported"][-1] if "long" not in self.grammars[g] else self.grammars[g]["long"].get("rule", v["exported"][0]),
+        q = [dict({"variant": v["name"], "rule": v["exported"][0] if "long" not in self.grammars[g] else self.grammars[g]["long"].get("rule", v["exported"][0]),
                    "input": (inp[0] if isinstance(inp, tuple) else inp), "ctx": [0, 0], "entry": rng.choice(["parse", "noop"]), "align": rng.below(8)},
                   **({"repeat": inp[1]} if isinstance(inp, tuple) else {})) for inp in q]
         return [q], [v["name"]]
 
+
+    def turn_knobs(self, plan, rng):
+        """Non-default ParseSettings for half of the parse_advanced jobs, when the working tree has any knob to turn."""
+        if not self.knobs:
+            return plan
+        for q in plan["tasks"]:
+            for job in q:
+                if job.get("entry") in ("sim", "noop") and rng.coin(500):
+                    job["entry"] += "@%d" % (1 + rng.below(1 << 31))
+        return plan
 
     def bulk_plan(self, i, rng):
         """Volume probe: one thread hands more than 2^32 bytes to the parsers of the process (rules that read only the
@@ -340,7 +365,7 @@ class ParseSim:
             "deep": deep_sim,
             "tasks": tasks,
         }
-        return plan
+        return self.turn_knobs(plan, rng)
 
     def plan_c05(self, i):
         rng = Rng(derive(self.seed, "c05", i))
@@ -381,14 +406,14 @@ class ParseSim:
                     "ctx": [0, 0], "entry": rng.choice(["parse", "noop"]), "align": rng.below(8)}
             tasks[0].insert(0, warm)
         sim_seed = rng.next()
-        return {
+        return self.turn_knobs({
             "id": i, "sim_seed": sim_seed, "entropy": sim_seed >> 1,
             "reuse_buffer": rng.coin(400), "aged": aged, "many_parses": many,
             "policy": self.gen_policy(rng, ntasks, est, vs),
             "start_at": [0] * ntasks,
             "fresh_threads": rng.coin(300) and not many,
             "tasks": tasks,
-        }
+        }, rng)
 
     # ---------------------------------------------------------------- execution
     def _batch(self, mode, lines, timeout_s, nshards):
@@ -604,10 +629,10 @@ def run_check(prop, tier, seed, replay_path=None):
             for p in plans:
                 for q in p["tasks"]:
                     for j in q:
-                        keys.append(job_key(j, "noop"))
+                        keys.append(job_key(j, noop_class(j["entry"])))
                         twin = dict(j)
                         twin["variant"] = ps.by_name[j["variant"]]["grammar"] + "_m0"
-                        keys.append(job_key(twin, "noop"))
+                        keys.append(job_key(twin, noop_class(j["entry"])))
         if prop == "C20":
             for p in plans:
                 for q in p["tasks"]:
@@ -702,13 +727,13 @@ def run_check(prop, tier, seed, replay_path=None):
             for p in plans:
                 for q in p["tasks"]:
                     for j in q:
-                        a = job_key(j, "noop")
+                        a = job_key(j, noop_class(j["entry"]))
                         if a in twin_checked:
                             continue
                         twin_checked.add(a)
                         twin = dict(j)
                         twin["variant"] = ps.by_name[j["variant"]]["grammar"] + "_m0"
-                        ra, rb = ps.iso[a], ps.iso[job_key(twin, "noop")]
+                        ra, rb = ps.iso[a], ps.iso[job_key(twin, noop_class(j["entry"]))]
                         twin_pairs += 1
                         oka, okb = ra["res"].startswith("Ok("), rb["res"].startswith("Ok(")
                         if oka != okb or (oka and ra["res"] != rb["res"]):
@@ -740,18 +765,23 @@ def run_check(prop, tier, seed, replay_path=None):
             full = max(memo_vs, key=lambda v: v["mask"])
             for n in range(1, dp.get("sweep_to", 300) + 1):
                 inp = dp["prefix"] + dp["open"] * n + dp["core"] + dp["close"] * n + dp["suffix"]
-                jobs.append({"variant": full["name"], "rule": full["exported"][-1], "input": inp, "ctx": [0, 0], "entry": "noop"})
+                jobs.append({"variant": full["name"], "rule": dp.get("rule", full["exported"][0]), "input": inp, "ctx": [0, 0], "entry": "noop"})
                 depth_jobs += 1
+        if ps.knobs:
+            krng = Rng(derive(seed, "c05-knobs"))
+            for j in jobs:
+                if krng.coin(500):
+                    j["entry"] = "noop@%d" % (1 + krng.below(1 << 31))
         keys = []
         for j in jobs:
             twin = dict(j)
             twin["variant"] = ps.by_name[j["variant"]]["grammar"] + "_m0"
-            keys += [job_key(j, "noop"), job_key(twin, "noop")]
+            keys += [job_key(j), job_key(twin)]
         ps.ensure_oracle(keys)
         for j in jobs:
             twin = dict(j)
             twin["variant"] = ps.by_name[j["variant"]]["grammar"] + "_m0"
-            ra, rb = ps.iso[job_key(j, "noop")], ps.iso[job_key(twin, "noop")]
+            ra, rb = ps.iso[job_key(j)], ps.iso[job_key(twin)]
             long_pairs += 1
             oka, okb = ra["res"].startswith("Ok("), rb["res"].startswith("Ok(")
             if oka != okb or (oka and ra["res"] != rb["res"]):
